@@ -138,8 +138,15 @@ func caseCLI(t *testing.T, tp *simrt.Tape, c *Ctx) (res Result) {
 		L = int(pc.Length)
 		args = append(args, "-preset", presetName)
 		// other flags must be ignored
-		if tp.Draw("cli.preset.noise", 2) == 0 {
+		switch tp.Draw("cli.preset.noise", 4) {
+		case 0:
 			args = append(args, "-s", "77", "-c", "3")
+		case 1:
+			if !is88 {
+				args = append(args, "-8") // must be ignored: the preset decides the rule set
+			}
+		case 2:
+			args = append([]string{"-p", "3", "-l", "2"}, args...)
 		}
 		res.stat("probe.preset", 1)
 	} else {
